@@ -12,33 +12,33 @@ import (
 
 // Config controls generation.
 type Config struct {
-	Features    Feature
-	MaxFuncs    int  // defined functions (>=1)
-	MaxStmts    int  // statements per block list
-	MaxDepth    int  // expression depth
-	HostImports int  // max imported host functions (module "env")
-	CanonNaN    bool // canonicalise NaNs after non-deterministic float instructions
-	Fuel        bool // fuel global: every function entry and loop header burns fuel, traps at 0
-	FuelInit    int32
-	MemPages    []uint32 // candidate minimum sizes; nil = {0,1,1,1,1,2,3}
-	NoMemory    bool
-	AllowStart  bool
-	RefSigs     bool    // reference types may appear in function signatures
-	V128Sigs    bool    // v128 may appear in function signatures
-	Names       bool    // emit a name section
-	Customs     bool    // emit custom sections
-	SpecialHost bool    // import env.grow (i32)->i32 and env.callback (i32)->i32
-	HostModule  string  // module name of the host imports ("" = "env")
-	Sink        bool    // fold values that statements would drop into an exported global (observability)
-	Lib         *Module // if set, import some exported functions of this (earlier generated) module ...
-	LibName     string  // ... under this module name (wasm-to-wasm calls across instances)
-	ModuleName  string  // if set, the module name written to the name section
-	SegmentRich bool    // bias statements towards passive-segment and table instructions and runtime ref.func (C11)
-	CallRich    bool    // bias statements and expressions towards calls (C20)
-	Enter       bool    // weave a call to the host import enter(i32 funcIndex) into every function entry (ground truth for C20)
-	WASI        bool    // import a few wasi_snapshot_preview1 functions and use them
+	Features      Feature
+	MaxFuncs      int  // defined functions (>=1)
+	MaxStmts      int  // statements per block list
+	MaxDepth      int  // expression depth
+	HostImports   int  // max imported host functions (module "env")
+	CanonNaN      bool // canonicalise NaNs after non-deterministic float instructions
+	Fuel          bool // fuel global: every function entry and loop header burns fuel, traps at 0
+	FuelInit      int32
+	MemPages      []uint32 // candidate minimum sizes; nil = {0,1,1,1,1,2,3}
+	NoMemory      bool
+	AllowStart    bool
+	RefSigs       bool               // reference types may appear in function signatures
+	V128Sigs      bool               // v128 may appear in function signatures
+	Names         bool               // emit a name section
+	Customs       bool               // emit custom sections
+	SpecialHost   bool               // import env.grow (i32)->i32 and env.callback (i32)->i32
+	HostModule    string             // module name of the host imports ("" = "env")
+	Sink          bool               // fold values that statements would drop into an exported global (observability)
+	Lib           *Module            // if set, import some exported functions of this (earlier generated) module ...
+	LibName       string             // ... under this module name (wasm-to-wasm calls across instances)
+	ModuleName    string             // if set, the module name written to the name section
+	SegmentRich   bool               // bias statements towards passive-segment and table instructions and runtime ref.func (C11)
+	CallRich      bool               // bias statements and expressions towards calls (C20)
+	Enter         bool               // weave a call to the host import enter(i32 funcIndex) into every function entry (ground truth for C20)
+	WASI          bool               // import a few wasi_snapshot_preview1 functions and use them
 	DebugSections [][]wasmenc.Custom // real DWARF section sets (LoadDebugSections) to attach instead of the minimal pair
-	Closer      bool    // import env.closer (i32)->i32: the host closes the CALLING module (exit code 7) when arg&7 == 0, and returns
+	Closer        bool               // import env.closer (i32)->i32: the host closes the CALLING module (exit code 7) when arg&7 == 0, and returns
 }
 
 // DefaultConfig is a medium-size configuration with every feature.
@@ -469,7 +469,10 @@ func (g *gen) module() {
 	if cfg.Customs && g.chance(35, "dwarf") {
 		// minimal well-formed DWARF (one compilation-unit header, empty abbreviation table): the
 		// engines then keep per-instruction source offsets and symbolise traps through them
-		if len(cfg.DebugSections) > 0 && g.chance(60, "realdwarf") {
+		if g.chance(40, "synthdwarf") {
+			m.Customs = append(m.Customs, g.synthDWARF()...)
+			g.stat("dwarf-synthetic")
+		} else if len(cfg.DebugSections) > 0 && g.chance(60, "realdwarf") {
 			// DWARF of a real toolchain (compilation units with ranges, line programs): its addresses
 			// land on arbitrary instructions of this module, which is what a symbolizer must survive
 			m.Customs = append(m.Customs, cfg.DebugSections[g.intn(len(cfg.DebugSections), "dwarfset")]...)
